@@ -169,6 +169,13 @@ def arg_cases(tier):
         out.append((2, "set_position", {"position": p}))
     out.append((2, "stop", {}))
     out.append((2, "get_shutter_state", {}))
+    # the same operations with their arguments passed by name
+    kw = [(1, "control_on", {"minutes": 90}), (1, "control_on", {"minutes": 0}), (1, "control_off", {"minutes": 0}), (1, "set_auto_shutdown", {"seconds": 5400}),
+          (1, "set_auto_shutdown", {"seconds": 3599}), (1, "set_device_name", {"name": "Boiler"}), (1, "set_device_name", {"name": "x"}), (1, "delete_schedule", {"slot": 6}),
+          (1, "create_schedule", {"start": "06:30", "end": "07:15", "days": [0, 5]}), (1, "create_schedule", {"start": "06:30", "end": "07:15", "days": []}),
+          (2, "set_position", {"position": 64}), (2, "set_position", {"position": 0})]
+    for kind, op, args in kw:
+        out.append((kind, op, dict(args, by_keyword=True)))
     return out
 
 
